@@ -21,9 +21,12 @@ def gholding (s : DState) : List String := match s.wpc with | .send m => [m] | _
 def gpending (s : DState) : List String := s.written ++ gholding s ++ s.sendQ
 
 /-- reachability of the whole-server model, with the ghost log of every line any thread enqueued so far.
-    `listener.failure()` needs the notify sender, which exists only once `start()` has enqueued the credentials
-    message (`mpc = 2`); every other step is unconstrained — in particular listener calls from arbitrary
-    application threads at any time, requests readable before `start()`, any pool size. -/
+    One hypothesis on the environment: `listener.failure()` is called only once `start()` has enqueued the
+    credentials message (`mpc = 2`) — the adapter is handed its listener by `set_listener` while the init request
+    is processed, i.e. by the reader thread, which `start()` creates after that enqueue (an application calling
+    `failure` on the server object itself during `start()` is outside the adapter interface).  Every other step is
+    unconstrained — in particular listener calls (`update`, `end_of_snapshot`, `clear_snapshot`) from arbitrary
+    threads at any time, requests readable before `start()`, any pool size. -/
 inductive GReachL (n : Nat) (user password : Option String) : DState → List String → Prop
   | init : GReachL n user password { poolN := n, user := user, password := password } []
   | step {s s' : DState} {log : List String} {tid : String} {op : OpClass} {x : String} {effs : List GEff} :
